@@ -56,7 +56,7 @@ def qualified_names():
             m = _re.match(r'\s*(?:pub )?fn (\w+)\(', line)
             if m:
                 out.setdefault(m.group(1), prefix + ('::' + cur_mod if cur_mod else '') + '::' + m.group(1))
-            m = _re.match(r'\s*(?:token_harness|glue_harness|parse_harness|parse_glue_harness|write_u32_harness|parse_picture_harness)!\((\w+),', line)
+            m = _re.match(r'\s*(?:token_harness|glue_harness|parse_harness|parse_glue_harness|write_u32_harness|parse_picture_harness|parse_ind_harness)!\((\w+),', line)
             if m:
                 out.setdefault(m.group(1), prefix + '::' + m.group(1))
     return out
@@ -79,11 +79,57 @@ def make_scratch(repo, workdir):
     if os.path.exists(os.path.join(KANI_DIR, 'kformat.rs')):
         with open(os.path.join(src, 'format.rs'), 'a') as f:
             f.write('\n#[cfg(kani)]\n#[path = "kformat.rs"]\nmod kformat;\n')
+        if not insert_parse_hooks(os.path.join(src, 'format.rs')):
+            # the inductive harnesses cannot be stated without their observation points: drop them (reported undecided)
+            kf = open(os.path.join(src, 'kformat.rs')).read()
+            kf = re.sub(r'// >>> parse_ind.*?// <<< parse_ind', '', kf, flags=re.S)
+            open(os.path.join(src, 'kformat.rs'), 'w').write(kf)
+            open(os.path.join(crate, '.parse_hooks_missing'), 'w').write('1')
     if os.path.exists(os.path.join(KANI_DIR, 'kserde.rs')):
         with open(os.path.join(src, 'serialize.rs'), 'a') as f:
             f.write('\n#[cfg(kani)]\n#[path = "kserde.rs"]\nmod kserde;\n')
     # crate-level feature gates some harness attributes need (loop contracts etc.) are not used
     return crate
+
+
+HOOK_ARGS = ('&mut s, &mut dt, &mut is_year_set, &mut is_month_set, &mut is_day_set, &mut is_hour24_set, &mut is_min_set, '
+             '&mut is_sec_set, &mut is_fraction_set, &mut dow, &mut doy')
+
+
+def insert_parse_hooks(path):
+    """Observation points for the inductive parse_internal harnesses (scratch copy only, cfg(kani)): one call at the head of
+    the field loop's body and one right after the loop.  The calls pass every loop-carried local by &mut; the hooks are
+    inert unless a parse_ind_* harness arms them.  Nothing of the function is removed or reordered.  If the loop is not
+    found (the function was restructured) nothing is inserted and the parse_ind_* harnesses report undecided."""
+    import rustsrc
+    txt = open(path).read()
+    stripped = rustsrc.strip_comments(txt)
+    a = stripped.find('fn parse_internal<')
+    if a < 0:
+        return False
+    m = re.compile(r'for\s+field\s+in\s+self\.fields\.iter\(\)\s*\{[ \t]*\n').search(stripped, a)
+    if not m:
+        return False
+    # every loop-carried local the hooks are handed must be declared (let mut) between the function head and the loop
+    head = stripped[a:m.start()]
+    declared = set(re.findall(r'let\s+mut\s+(\w+)', head))
+    wanted = set(re.findall(r'&mut (\w+)', HOOK_ARGS))
+    if not wanted <= declared or (declared - wanted) - {'now', 'get_now'}:
+        return False
+    ob = stripped.rfind('{', m.start(), m.end())
+    try:
+        cb = rustsrc.match_bracket(stripped, ob)
+    except rustsrc.ParseError:
+        return False
+    line_open = stripped.count('\n', 0, ob)
+    line_close = stripped.count('\n', 0, cb)
+    lines = txt.split('\n')
+    if lines[line_close].strip() != '}':
+        return False
+    lines.insert(line_close + 1, '        #[cfg(kani)]\n        kformat::after_loop_hook::<T>(%s);' % HOOK_ARGS)
+    lines.insert(line_open + 1, '            #[cfg(kani)]\n            kformat::loop_head_hook::<T>(%s);' % HOOK_ARGS)
+    open(path, 'w').write('\n'.join(lines))
+    return True
 
 
 def parse_output(text, names):
@@ -149,6 +195,19 @@ def run(repo, harnesses, workdir, tier, seed, jobs=None, concrete=True):
     out = {'harnesses': [], 'summary': {}, 'trusted': []}
     t0 = time.time()
     crate = make_scratch(repo, workdir)
+    dropped = []
+    if os.path.exists(os.path.join(crate, '.parse_hooks_missing')):
+        dropped = [h for h in harnesses if h['name'].startswith('parse_ind_')]
+        harnesses = [h for h in harnesses if not h['name'].startswith('parse_ind_')]
+        names = [h['name'] for h in harnesses]
+    for h in dropped:
+        out['harnesses'].append({'name': h['name'], 'status': 'undecided', 'time_s': None, 'complete': h.get('complete', True), 'bound': h.get('bound'),
+                                 'reason': 'lost anchor: the field loop of parse_internal (or its loop-carried locals) was not found, observation points not placed',
+                                 'detail': '', 'failures': [],
+                                 'sample': {'obligation': 'kani::' + h['name'], 'what': h.get('what', ''), 'backend': 'kani/cbmc', 'complete': h.get('complete', True), 'bound': h.get('bound')}})
+    if not harnesses:
+        shutil.rmtree(crate, ignore_errors=True)
+        return out
     heavy = any(h.get('mem_heavy') for h in harnesses)
     jobs = jobs or (4 if heavy else 12)
     cmd = ['cargo', 'kani', '-Z', 'stubbing', '-Z', 'function-contracts', '--features', FEATURES, '--output-format', 'terse', '-j', str(jobs)]
